@@ -16,10 +16,10 @@ for d in sorted(os.listdir(os.path.join(V, 'seeded'))):
     p = os.path.join(V, 'seeded', d)
     if not os.path.isdir(p):
         continue
-    if d.startswith(prefix) and os.path.exists(os.path.join(p, 'patch.diff')):
+    if '--table-only' not in flags and d.startswith(prefix) and os.path.exists(os.path.join(p, 'patch.diff')):
         meta = json.load(open(os.path.join(p, 'meta.json')))
         checks = ','.join(meta.get('checks', {meta['property']: 0}).keys())
-        subprocess.run([os.path.join(V, 'tools', 'confirm_seed.py'), p, meta['property'], d, '--checks', checks] + flags)
+        subprocess.run([os.path.join(V, 'tools', 'confirm_seed.py'), p, meta['property'], d, '--checks', checks] + [f for f in flags if f != '--table-only'])
     meta = json.load(open(os.path.join(p, 'meta.json')))
     rows.append(meta)
 with open(os.path.join(V, 'seeded', 'RESULTS.md'), 'w') as f:
